@@ -1,6 +1,6 @@
 """C05 - QuantileLinearRegression fits, and scores with, the pinball loss of its quantile."""
 from vf import loader
-from vf.core import Clause, Outcome, Violation, require, np_scalars, with_sk
+from vf.core import Clause, Outcome, Violation, require, np_scalars, with_sk, round_trip
 
 import numpy as np
 from hypothesis import strategies as st
@@ -83,8 +83,15 @@ def check_fit(case):
     m = _Q(delta=_delta(case), **np_scalars(dict(quantile=q, max_iter=case["max_iter"], fit_intercept=case["fit_intercept"], positive=case["positive"]), case.get("np_params", False)))
     facts["np_params"] = bool(case.get("np_params", False))
     facts["yscale"] = case.get("yscale", 1.0)
+    how = case.get("via_copy")
+    facts["via_copy"] = how or "none"
+    if how and how[0] == "before":
+        m = round_trip(m, how[1])          # an unfitted, configured model that went through persistence / a copy
     r = m.fit(X, y, sample_weight=w)
     require(r is m, "fit:not-self", "", facts)
+    if how and how[0] == "refit":
+        m = round_trip(m, how[1])          # a fitted model is copied and the copy trained again: every clause below is about the copy
+        m.fit(X, y, sample_weight=w)
     require(np.array_equal(X, X0) and np.array_equal(y, y0) and (w is None or np.array_equal(w, w0)), "input-modified", "", facts)
     f = m.predict(X)
     L = pinball(y, f, q, w)
@@ -121,6 +128,7 @@ def check_fit(case):
     labels.append("numpy-scalar-params" if case.get("np_params") else "python-scalar-params")
     labels.append("yscale=%g" % case.get("yscale", 1.0))
     labels.append("targets:" + case.get("ydtype", "float64"))
+    labels.append("via-copy:" + ("-".join(how) if how else "none"))
     return Outcome(labels, nt)
 
 
@@ -132,6 +140,12 @@ def check_score(case):
     if np.linalg.matrix_rank(np.hstack([X, np.ones((n, 1))])) < d + 1:
         return Outcome(["rank-deficient-skipped"], False)
     m = _Q(**np_scalars(dict(quantile=q, max_iter=10, fit_intercept=case["fit_intercept"], positive=case["positive"]), case.get("np_params", False))).fit(X, y)
+    how = case.get("via_copy")
+    facts["via_copy"] = how or "none"
+    if how:
+        f_before = m.predict(X)
+        m = round_trip(m, how[1])           # the fitted model after persistence / a copy scores like the model itself
+        require(np.array_equal(m.predict(X), f_before), "copy:predict-differs", "predictions change through %s" % how[1], facts)
     Z = np.array(case["Z"], dtype=np.float64).reshape(-1, d)
     # evaluation set: the training set or other rows with targets built the same way
     yz = Z @ np.array(case["beta"]) + case["b"] + case["amp"] * np.array(case["noise"][::-1][:len(Z)])
@@ -167,7 +181,7 @@ def check_score(case):
                         shift, base_loss, loss, base_score, sc), facts)
         elif loss < base_loss * (1 - 1e-9):
             require(sc <= base_score + 1e-12 * (1 + abs(base_score)), "score:worse-for-better-fit", "", facts)
-    return Outcome(["q=0.5" if q == 0.5 else "q!=0.5", "weighted-mae" if (w is not None and q == 0.5) else "unweighted"],
+    return Outcome(["q=0.5" if q == 0.5 else "q!=0.5", "weighted-mae" if (w is not None and q == 0.5) else "unweighted", "via-copy:" + ("-".join(how) if how else "none")],
                    not (0.45 <= q <= 0.55) or w is not None)
 
 
@@ -226,6 +240,11 @@ def _cases(draw, tier="quick", weighted=None, for_score=False):
         case["shifts"] = [draw(st.integers(-40, 40)) / 8.0 for _ in range(4)]
     if weighted:
         case["max_iter"] = draw(st.sampled_from([1, 2, 5, 10, 50]))
+    if not weighted:
+        # one case in three goes through a copy: configured then persisted before fit, or fitted, copied and the copy trained again
+        kind = draw(st.sampled_from([None, None, "before", "refit"]))
+        if kind:
+            case["via_copy"] = [kind, draw(st.sampled_from(["pickle", "deepcopy", "joblib"]))]
     return case
 
 
